@@ -32,12 +32,18 @@ TWO_GROUPS = dict(nd=3, groups=[{'A': [0, 1, 2], 'B': [0, 2, 1]}, {'C': [0, 2, 1
                   procs=lambda p0, p1: [[p0, p1], p0], start='A')
 
 
+# the less distributed group listed FIRST (the constructor sizes its buffer in a different branch for this order)
+REV3 = dict(nd=3, groups=[{'G': [0, 1, 2]}, {'S': [0, 1, 2]}], procs=lambda p0, p1: [p0, [p0, p1]], start='S')
+REV_TWO = dict(nd=3, groups=[{'C': [0, 2, 1]}, {'A': [0, 1, 2], 'B': [0, 2, 1]}], procs=lambda p0, p1: [p0, [p0, p1]], start='A')
+FAMILIES = dict(driver3=DRIVER3, driver4=DRIVER4, two=TWO_GROUPS, upstream4=UPSTREAM4, rev3=REV3, rev_two=REV_TWO)
+
+
 def tag(cfg):
     return '%s grid%s %s->%s buf=%d N=%d' % (cfg['family'], tuple(cfg['nprocs']), cfg['src'], cfg['dst'], cfg['buf'], cfg['N'])
 
 
 def family(cfg):
-    return dict(driver3=DRIVER3, driver4=DRIVER4, two=TWO_GROUPS, upstream4=UPSTREAM4)[cfg['family']]
+    return FAMILIES[cfg['family']]
 
 
 def enum_paths(cfg):
@@ -222,6 +228,10 @@ def configs(tier):
         for a, b, buf in (('z_surface', 'v_parallel', False), ('v_parallel', 'z_surface', True), ('flux_surface1', 'flux_surface2', False), ('poloidal', 'vr_contig1', False)):
             add('upstream4', (2, 2), a, b, buf, 2)
         add('driver3', (2, 1), 'poloidal', 'v_parallel_1d', True, 3)
+        # less distributed group listed first
+        add('rev3', (2, 2), 'S', 'G', False, 3)
+        add('rev3', (2, 2), 'G', 'S', True, 3)
+        add('rev_two', (2, 2), 'B', 'C', False, 3)
     else:
         for grid in [(1, 2), (2, 1), (2, 2), (1, 3), (3, 1), (2, 3), (3, 2), (3, 3)]:
             for a, b in itertools.permutations(names3, 2):
@@ -238,6 +248,11 @@ def configs(tier):
             for a, b in itertools.permutations(['A', 'B', 'C'], 2):
                 for buf in (False, True):
                     add('two', grid, a, b, buf, 3)
+                    add('rev_two', grid, a, b, buf, 3)
+        for grid in [(2, 2), (2, 3), (3, 2), (1, 2), (2, 1)]:
+            for a, b in (('S', 'G'), ('G', 'S')):
+                for buf in (False, True):
+                    add('rev3', grid, a, b, buf, 4 if max(grid) < 3 else 3)
     return out
 
 
@@ -246,7 +261,7 @@ def main():
     real, lay = LS.modules()
     if run.args.replay:
         rp = json.load(open(run.args.replay))['replay']
-        fam = dict(driver3=DRIVER3, driver4=DRIVER4, two=TWO_GROUPS, upstream4=UPSTREAM4)[rp['family']]
+        fam = FAMILIES[rp['family']]
         print(LS.concrete_swapper_transpose(rp['shape'], rp['nprocs'], fam['groups'], fam['procs'](*rp['nprocs']), fam['start'], rp['src'], rp['dst'], rp['buf']))
         sys.exit(0)
     SW = real.LayoutSwapper
